@@ -34,6 +34,10 @@ pub enum Stmt {
     /// a reuse of a template that is defined only at the end of the document: its first attempt fails, it is
     /// instantiated when it is tried again
     ReuseLate(Vec<(usize, Val)>),
+    /// a probe with an id in the document body (not in <specs>): rendered where it stands, and the target of `ReuseBody`
+    Body,
+    /// a reuse of that element: its references are resolved where the instance is made, reuse attributes shadowing
+    ReuseBody(Vec<(usize, Val)>),
     Loop(u8, Vec<Stmt>),
     If(bool, Vec<Stmt>),
     /// a shape holding a forward reference (forces re-evaluation of whatever encloses it)
@@ -95,10 +99,11 @@ fn sanitize(prog: &mut Vec<Stmt>, defined: &mut std::collections::HashSet<usize>
     const NUMS: [&str; 3] = ["7", "12", "0"];
     for s in prog.iter_mut() {
         match s {
-            Stmt::Var(_) | Stmt::Reuse(_) | Stmt::ReuseLate(_) => {
+            Stmt::Var(_) | Stmt::Reuse(_) | Stmt::ReuseLate(_) | Stmt::ReuseBody(_) => {
                 let is_var = matches!(s, Stmt::Var(_));
+                let is_body_reuse = matches!(s, Stmt::ReuseBody(_));
                 let asg = match s {
-                    Stmt::Var(a) | Stmt::Reuse(a) | Stmt::ReuseLate(a) => a,
+                    Stmt::Var(a) | Stmt::Reuse(a) | Stmt::ReuseLate(a) | Stmt::ReuseBody(a) => a,
                     _ => unreachable!(),
                 };
                 for (k, v) in asg.iter_mut() {
@@ -129,7 +134,7 @@ fn sanitize(prog: &mut Vec<Stmt>, defined: &mut std::collections::HashSet<usize>
                     for (k, _) in asg.iter() {
                         defined.insert(*k);
                     }
-                } else if !defined.contains(&2) && !asg.iter().any(|(k, _)| *k == 2) {
+                } else if !is_body_reuse && !defined.contains(&2) && !asg.iter().any(|(k, _)| *k == 2) {
                     // the template reads $n: where the program has not defined it, the instance binds it
                     asg.push((2, Val::Lit("7".into())));
                 }
@@ -170,6 +175,25 @@ fn fam_programs(_t: Tier) -> BoxedStrategy<Case> {
         sanitize(&mut prog, &mut defined);
         if init != 0 {
             prog.insert(0, Stmt::Var(vec![(2, Val::Lit("1".into()))]));
+        }
+        // one program in three holds a probe with an id in the document body, and reuses it where it reused the template
+        if init == 2 {
+            fn retarget(p: &mut [Stmt], k: &mut usize) {
+                for s in p.iter_mut() {
+                    match s {
+                        Stmt::Reuse(a) => {
+                            *k += 1;
+                            if *k % 3 != 0 {
+                                *s = Stmt::ReuseBody(std::mem::take(a));
+                            }
+                        }
+                        Stmt::G(_, b) | Stmt::Loop(_, b) | Stmt::If(_, b) => retarget(b, k),
+                        _ => {}
+                    }
+                }
+            }
+            retarget(&mut prog, &mut 0);
+            prog.insert(1, Stmt::Body);
         }
         prog.push(Stmt::Probe);
         Case { prog }
@@ -212,6 +236,14 @@ fn render(prog: &[Stmt], out: &mut Vec<X>) {
             }
             Stmt::Reuse(attrs) | Stmt::ReuseLate(attrs) => {
                 let mut r = XEl::new("reuse").a("href", if matches!(s, Stmt::ReuseLate(_)) { "#tpl2" } else { "#tpl" });
+                for (k, v) in attrs {
+                    r.set(NAMES[*k], val_txt(v));
+                }
+                out.push(X::El(r));
+            }
+            Stmt::Body => out.push(X::El(XEl::new("text").a("id", "pt").a("data-q", "1").a("xy", "0 0").a("text", probe_text().replace("p:", "q:")))),
+            Stmt::ReuseBody(attrs) => {
+                let mut r = XEl::new("reuse").a("href", "#pt");
                 for (k, v) in attrs {
                     r.set(NAMES[*k], val_txt(v));
                 }
@@ -332,6 +364,13 @@ fn interpret(prog: &[Stmt], stack: &mut Vec<Scope>, out: &mut Vec<String>) -> Op
                 stack.pop();
                 stack.pop();
             }
+            Stmt::Body => out.push(probe_expected("q", stack)),
+            Stmt::ReuseBody(attrs) => {
+                let bound: Scope = attrs.iter().map(|(k, v)| eval_val(v, stack).map(|x| (*k, x))).collect::<Option<Scope>>()?;
+                stack.push(bound);
+                out.push(probe_expected("q", stack));
+                stack.pop();
+            }
             Stmt::Loop(n, body) => {
                 for _ in 0..*n {
                     interpret(body, stack, out)?;
@@ -413,7 +452,7 @@ impl Property for C15 {
         "C15"
     }
     fn rule(&self) -> String {
-        "cases = programs of 2-9 top-level statements nested up to 4 deep over <g attrs> and <reuse attrs> (scope forming), <loop> / <if> (transparent), <var> assignments (literals, $other, ${name}x concatenation, numeric increments, several names at once - parallel swaps), shapes holding a forward reference (which force re-evaluation of whatever encloses them) and probes <text text=\"p:$a|$b|$n|$fill|$width|$label\"/> reading every name in play; names deliberately coincide with attribute names. \
+        "cases = programs of 2-9 top-level statements nested up to 4 deep over <g attrs> and <reuse attrs> (scope forming), <loop> / <if> (transparent), <var> assignments (literals, $other, ${name}x concatenation, numeric increments, several names at once - parallel swaps), shapes holding a forward reference (which force re-evaluation of whatever encloses them), a probe with an id in the document body that is reused with attributes of its own, and probes <text text=\"p:$a|$b|$n|$fill|$width|$label\"/> reading every name in play; names deliberately coincide with attribute names. \
          Oracle 1: a reference interpreter of the stated rule (innermost enclosing definition; <var> values die with the enclosing g / reuse instance; parallel assignment from the values in force before; undefined $name verbatim) predicts every probe's text in output order. Oracle 2 (metamorphic): the same program with the referenced element moved to the front (no forward reference left) yields the same probe texts. \
          Non-trivial = a forward reference sits inside a scope and a probe follows that scope's end, or the program contains a reuse; distinct by hash of the case."
             .into()
